@@ -97,6 +97,11 @@ pub fn worker(check: &dyn Check, tier: Tier, shard: usize, nshards: usize, resum
         match check.run_item(tier, idx, jf.as_ref()) {
             Ok(mut v) => {
                 v["wall_ms"] = json!(t_item.elapsed().as_millis() as u64);
+                if let Some(a) = v.get_mut("found").and_then(|x| x.as_array_mut()) {
+                    for f in a.iter_mut() {
+                        f["item"] = json!(idx);
+                    }
+                }
                 let mut o = out.lock();
                 let _ = writeln!(o, "R {} {}", idx, v);
                 let _ = o.flush();
@@ -345,11 +350,11 @@ pub fn run_check(check: &dyn Check, tier: Tier, exe: &str) -> RunOutcome {
         }
         let sig = f["sig"].as_str().unwrap_or("");
         let k = match (Cfg::from_json(&f["cfg"]), history_parse(f["history"].as_str().unwrap_or(""))) {
-            (Ok(cfg), Ok(h)) => kf::classify(&entries, prop, sig, &cfg, &h),
+            (Ok(cfg), Ok(h)) => kf::classify(&entries, prop, sig, &cfg, &h, f),
             _ => {
                 // lattice points (E2) carry no history: match on the cfg and point description
                 match Cfg::from_json(&f["cfg"]) {
-                    Ok(cfg) => kf::classify(&entries, prop, sig, &cfg, &[]),
+                    Ok(cfg) => kf::classify(&entries, prop, sig, &cfg, &[], f),
                     Err(_) => None,
                 }
             }
@@ -385,6 +390,9 @@ pub fn run_check(check: &dyn Check, tier: Tier, exe: &str) -> RunOutcome {
             "property": id, "engine": check.engine(), "tier": tier.name(),
             "cfg": f["cfg"], "history": f["history"], "point": f.get("point").cloned().unwrap_or(Value::Null),
             "signature": f["sig"], "detail": f["detail"],
+            "item": f.get("item").cloned().unwrap_or(Value::Null),
+            "sample_type": f.get("sample_type").cloned().unwrap_or(Value::Null),
+            "x": f.get("x").cloned().unwrap_or(Value::Null),
         });
         let _ = std::fs::write(&path, serde_json::to_string_pretty(&body).unwrap());
         println!("VIOLATION property={} replay={}", id, path);
